@@ -25,6 +25,31 @@ Theorem ownership_exactly_once : forall ops,
 Proof. exact OwnershipProofs.ownership_exactly_once. Qed.
 Print Assumptions ownership_exactly_once.
 
+(* signed indices (get/set/pop_at/push_at take an int64 and normalise a negative one against the current length, as
+   the C code does): every history with signed indices is a history of plain operations of the same length, so every
+   statement of this file about [run ops] holds of [srun ss] as well — in particular the ledger *)
+Theorem signed_index_histories_are_plain_histories : forall ss, exists ops, srun ss = run ops /\ length ops = length ss.
+Proof. exact srun_is_run. Qed.
+Print Assumptions signed_index_histories_are_plain_histories.
+
+Theorem ownership_ledger_with_signed_indices : forall ss,
+  Permutation (held (conts (srun ss)) ++ map fst (dead (srun ss))) (seq 0 (next (srun ss))).
+Proof. exact (srun_transfer (fun w => Permutation (held (conts w) ++ map fst (dead w)) (seq 0 (next w))) run_inv). Qed.
+Print Assumptions ownership_ledger_with_signed_indices.
+
+Theorem signed_index_normalisation_is_the_C_one : forall n i,
+  ((i < 0)%Z -> (0 <= Z.of_nat n + i)%Z -> Z.of_nat (norm_index n i) = (Z.of_nat n + i)%Z) /\
+  ((i < 0)%Z -> (Z.of_nat n + i < 0)%Z -> norm_index n i = S n) /\
+  ((0 <= i <= Z.of_nat (S n))%Z -> Z.of_nat (norm_index n i) = i) /\
+  ((Z.of_nat (S n) < i)%Z -> norm_index n i = S n).
+Proof. exact (fun n i => conj (norm_index_neg n i) (conj (fun a b => norm_index_refused n i b a) (conj (norm_index_pos n i) (norm_index_far n i)))). Qed.
+Print Assumptions signed_index_normalisation_is_the_C_one.
+
+Example signed_index_nonvacuous :
+  map cval (match conts (srun [SOp (ONewSeq KArray [10; 11; 12; 13]%Z); SPopAt 0 (-2); SPushAt 0 (-1) 7; SPopAt 0 (-9); SSet 0 (-4) 5]) with
+            | [Some (CSeq _ l)] => l | _ => [] end) = [5; 11; 13; 7]%Z.
+Proof. vm_compute. reflexivity. Qed.
+
 (* number of live elements = sum of the container lengths (keys and values alike; zero-filled
    List elements, which carry no token until first assigned, are counted apart) *)
 Theorem live_equals_lengths : forall ops,
